@@ -974,3 +974,213 @@ Definition committer_prefix (cfg : list (str * str)) : str :=
 Lemma commit_lines_wellformed cfg d : date_tail_okb d = true ->
   fsck_identb (author_prefix cfg ++ d) = true /\ fsck_identb (committer_prefix cfg ++ d) = true.
 Proof. intros Hd. split; apply clean_ident_line_ok; auto using clean_ident_clean. Qed.
+
+(* ------------------------------------------------------------------ loose and packed references
+
+   The reference store of a git directory as go-git (storage/filesystem/dotgit) and stock git share it: one file per
+   loose reference, and the packed-refs file. A loose file shadows the packed entry of the same name; a loose file
+   without a value (empty) is what git calls a broken reference: git for-each-ref skips it with a warning, git fsck
+   reports "invalid sha1 pointer", git gc / clone / fetch from the repository fail.
+
+   go-git's writes: SetReference truncates the loose file and writes it. CheckAndSetReference new old (what a fetch
+   uses for every tracking reference it updates, old = the value ResolveReference found, loose or packed) opens the loose
+   file with O_CREATE, reads it and compares with old BEFORE writing: when the reference only lives in packed-refs the
+   file has just been created empty, the comparison fails ("reference has changed concurrently") and the empty file
+   stays behind. repository/gogit.go FetchRefs therefore rewrites as loose files, before every fetch, the packed
+   references below the prefixes it is going to update (unpackRefs).
+
+   Stock git, run by the host's user or by git itself at any moment between two actions of git-bug: git pack-refs --all
+   (also part of git gc) moves every loose reference that has a value into packed-refs; the user's own fetches and
+   update-ref / branch -d commands write and delete references. *)
+
+Record refstore := mkrs {
+  rs_loose : list (list str * option N);   (* loose files: location below the git directory -> Some id | None (empty file) *)
+  rs_packed : list (list str * N)          (* packed-refs *)
+}.
+
+Inductive rview := RAbsent | RBroken | RPoints (h : N).
+
+(* what git shows for a location *)
+Definition rs_view (rs : refstore) (loc : list str) : rview :=
+  match lookup loc (rs_loose rs) with
+  | Some (Some h) => RPoints h
+  | Some None => RBroken
+  | None => match lookup loc (rs_packed rs) with Some h => RPoints h | None => RAbsent end
+  end.
+
+Definition has_value (e : list str * option N) : bool := match snd e with Some _ => true | None => false end.
+(* no loose file without a value *)
+Definition no_broken (rs : refstore) : Prop := forallb has_value (rs_loose rs) = true.
+
+(* SetReference *)
+Definition rs_set (loc : list str) (h : N) (rs : refstore) : refstore :=
+  mkrs (set_at path_eqb loc (Some h) (rs_loose rs)) (rs_packed rs).
+(* RemoveReference / git update-ref -d: the loose file and the packed entry *)
+Definition rs_del (loc : list str) (rs : refstore) : refstore :=
+  mkrs (del_at path_eqb loc (rs_loose rs)) (del_at path_eqb loc (rs_packed rs)).
+(* CheckAndSetReference new old, old being what the store resolved for the name just before *)
+Definition rs_cas (loc : list str) (new : N) (rs : refstore) : refstore :=
+  match lookup loc (rs_loose rs) with
+  | Some (Some _) => rs_set loc new rs     (* the file holds the old value: truncated and rewritten *)
+  | Some None => rs                        (* already broken: not detailed, the theorems exclude it *)
+  | None =>
+      match lookup loc (rs_packed rs) with
+      | Some _ => mkrs (set_at path_eqb loc None (rs_loose rs)) (rs_packed rs)   (* created empty, compared, refused, left behind *)
+      | None => rs_set loc new rs          (* a new reference: nothing to compare *)
+      end
+  end.
+
+Definition hasb {V} (loc : list str) (l : list (list str * V)) : bool := existsb (fun e => path_eqb (fst e) loc) l.
+
+(* GoGitRepo.unpackRefs: every packed reference below the prefix that has no loose file is written as a loose file *)
+Definition rs_unpack (inside : list str -> bool) (rs : refstore) : refstore :=
+  mkrs (rs_loose rs ++ map (fun e => (fst e, Some (snd e)))
+                           (filter (fun e => inside (fst e) && negb (hasb (fst e) (rs_loose rs))) (rs_packed rs)))
+       (rs_packed rs).
+
+(* the reference updates of one fetch: the refspec only maps to names below the prefix *)
+Definition rs_updates (inside : list str -> bool) (ups : list (list str * N)) (rs : refstore) : refstore :=
+  fold_left (fun st u => rs_cas (fst u) (snd u) st) (filter (fun u => inside (fst u)) ups) rs.
+(* GoGitRepo.FetchRefs *)
+Definition rs_fetch (inside : list str -> bool) (ups : list (list str * N)) (rs : refstore) : refstore :=
+  rs_updates inside ups (rs_unpack inside rs).
+
+(* git pack-refs --all: the loose references that have a value go to packed-refs (replacing the entries of the same
+   name) and their files are deleted *)
+Definition rs_pack_all (rs : refstore) : refstore :=
+  let vals := flat_map (fun e => match snd e with Some h => [(fst e, h)] | None => [] end) (rs_loose rs) in
+  mkrs (filter (fun e => negb (has_value e)) (rs_loose rs))
+       (vals ++ filter (fun e => negb (hasb (fst e) vals)) (rs_packed rs)).
+
+Inductive rstep :=
+| SFetch (inside : list str -> bool) (ups : list (list str * N))   (* git-bug: FetchRefs *)
+| SWrite (loc : list str) (h : N)                                  (* git-bug: UpdateRef, CopyRef, the tracking references of a push; the user's git fetch / update-ref *)
+| SDelete (loc : list str)                                         (* git-bug: RemoveRef; the user's update-ref -d, fetch --prune *)
+| SPackAll.                                                        (* the user's git pack-refs --all, git gc *)
+
+Definition rs_step (rs : refstore) (s : rstep) : refstore :=
+  match s with
+  | SFetch inside ups => rs_fetch inside ups rs
+  | SWrite loc h => rs_set loc h rs
+  | SDelete loc => rs_del loc rs
+  | SPackAll => rs_pack_all rs
+  end.
+Definition rs_run (steps : list rstep) (rs : refstore) : refstore := fold_left rs_step steps rs.
+
+Lemma lookup_none_hasb {V} loc (l : list (list str * V)) : lookup loc l = None <-> hasb loc l = false.
+Proof. unfold lookup, hasb. induction l as [|e t IH]; cbn; [tauto|].
+  destruct (path_eqb (fst e) loc); cbn; [split; discriminate|exact IH]. Qed.
+
+Lemma lookup_app {V} loc (a b : list (list str * V)) :
+  lookup loc (a ++ b) = match lookup loc a with Some v => Some v | None => lookup loc b end.
+Proof. unfold lookup. induction a as [|e t IH]; cbn; [destruct (find _ b); reflexivity|].
+  destruct (path_eqb (fst e) loc); [reflexivity|exact IH]. Qed.
+
+Lemma lookup_set_same {V} loc (v : V) l : lookup loc (set_at path_eqb loc v l) = Some v.
+Proof. unfold set_at. rewrite lookup_app.
+  assert (X : lookup loc (filter (fun e => negb (path_eqb (fst e) loc)) l) = None).
+  { apply lookup_none_hasb. unfold hasb. induction l as [|e t IH]; cbn; [reflexivity|].
+    destruct (path_eqb (fst e) loc) eqn:E; cbn; [exact IH|]. rewrite E. exact IH. }
+  rewrite X. unfold lookup. cbn. now rewrite path_eqb_refl. Qed.
+
+Lemma hasb_set_at {V} loc k (v : V) l : hasb loc l = true -> hasb loc (set_at path_eqb k v l) = true.
+Proof. intros H. destruct (path_eqb k loc) eqn:E.
+  - apply path_eqb_eq in E. subst k. destruct (hasb loc (set_at path_eqb loc v l)) eqn:X; [reflexivity|].
+    apply lookup_none_hasb in X. rewrite lookup_set_same in X. discriminate.
+  - assert (N0 : k <> loc) by (intros ->; rewrite path_eqb_refl in E; discriminate).
+    destruct (hasb loc (set_at path_eqb k v l)) eqn:X; [reflexivity|].
+    apply lookup_none_hasb in X. rewrite (lookup_set_other loc k v l N0) in X. apply lookup_none_hasb in X. congruence. Qed.
+
+Lemma forallb_filter {A} (f g : A -> bool) l : forallb f l = true -> forallb f (filter g l) = true.
+Proof. induction l as [|x t IH]; cbn; [reflexivity|]. intros H. apply andb_true_iff in H as [Hx Ht].
+  destruct (g x); cbn; [rewrite Hx|]; auto. Qed.
+
+Lemma no_broken_lookup rs loc : no_broken rs -> lookup loc (rs_loose rs) <> Some None.
+Proof. unfold no_broken, lookup. intros H X. destruct (find _ (rs_loose rs)) as [e|] eqn:F; [|discriminate].
+  apply find_some in F as [I _]. rewrite forallb_forall in H. specialize (H e I). unfold has_value in H.
+  injection X as X. rewrite X in H. discriminate. Qed.
+
+Lemma no_broken_view rs loc : no_broken rs -> rs_view rs loc <> RBroken.
+Proof. intros H. unfold rs_view. pose proof (no_broken_lookup rs loc H) as X.
+  destruct (lookup loc (rs_loose rs)) as [[h|]|]; [discriminate|congruence|].
+  destruct (lookup loc (rs_packed rs)); discriminate. Qed.
+
+Lemma rs_set_no_broken loc h rs : no_broken rs -> no_broken (rs_set loc h rs).
+Proof. unfold no_broken, rs_set, set_at. cbn. intros H. rewrite forallb_app. rewrite forallb_filter by exact H. reflexivity. Qed.
+
+Lemma rs_del_no_broken loc rs : no_broken rs -> no_broken (rs_del loc rs).
+Proof. unfold no_broken, rs_del, del_at. cbn. apply forallb_filter. Qed.
+
+Lemma rs_pack_all_no_broken rs : no_broken rs -> no_broken (rs_pack_all rs).
+Proof. unfold no_broken, rs_pack_all. cbn. apply forallb_filter. Qed.
+
+(* every packed reference below the prefix has a loose file *)
+Definition covered (inside : list str -> bool) (rs : refstore) : Prop :=
+  forall loc, inside loc = true -> hasb loc (rs_packed rs) = true -> hasb loc (rs_loose rs) = true.
+
+Lemma rs_unpack_no_broken inside rs : no_broken rs -> no_broken (rs_unpack inside rs).
+Proof. unfold no_broken, rs_unpack. cbn. intros H. rewrite forallb_app, H. cbn.
+  induction (filter _ (rs_packed rs)) as [|e t IH]; cbn; [reflexivity|exact IH]. Qed.
+
+Lemma rs_unpack_covered inside rs : covered inside (rs_unpack inside rs).
+Proof. unfold covered, rs_unpack, hasb. cbn. intros loc I P. rewrite existsb_app.
+  destruct (existsb (fun e => path_eqb (fst e) loc) (rs_loose rs)) eqn:L; [reflexivity|]. cbn.
+  apply existsb_exists in P as (e & In_e & E). apply path_eqb_eq in E.
+  apply existsb_exists. exists (fst e, Some (snd e)). split; [|cbn; rewrite E; apply path_eqb_refl].
+  apply in_map_iff. exists e. split; [reflexivity|]. apply filter_In. split; [exact In_e|].
+  rewrite E, I. cbn. unfold hasb. now rewrite L. Qed.
+
+Lemma rs_cas_inv inside loc new rs : inside loc = true -> no_broken rs -> covered inside rs ->
+  no_broken (rs_cas loc new rs) /\ covered inside (rs_cas loc new rs).
+Proof. intros I NB C. unfold rs_cas.
+  assert (SetOK : no_broken (rs_set loc new rs) /\ covered inside (rs_set loc new rs)).
+  { split; [now apply rs_set_no_broken|]. intros l Il P. cbn in *. apply hasb_set_at. now apply C. }
+  destruct (lookup loc (rs_loose rs)) as [[h|]|] eqn:L; [exact SetOK|now split|].
+  destruct (lookup loc (rs_packed rs)) as [h|] eqn:P; [|exact SetOK].
+  exfalso. apply lookup_none_hasb in L. rewrite C in L; [discriminate|exact I|].
+  destruct (hasb loc (rs_packed rs)) eqn:X; [reflexivity|]. apply lookup_none_hasb in X. congruence. Qed.
+
+Lemma rs_updates_inv inside ups : forall rs, no_broken rs -> covered inside rs ->
+  no_broken (rs_updates inside ups rs) /\ covered inside (rs_updates inside ups rs).
+Proof. unfold rs_updates. induction ups as [|u t IH]; intros rs NB C; cbn; [now split|].
+  destruct (inside (fst u)) eqn:I; cbn; [|now apply IH].
+  destruct (rs_cas_inv inside (fst u) (snd u) rs I NB C) as [NB' C']. now apply IH. Qed.
+
+(* a fetch leaves no reference broken, wherever the references were (loose, packed, both) *)
+Theorem fetch_no_broken inside ups rs : no_broken rs -> no_broken (rs_fetch inside ups rs).
+Proof. intros NB. unfold rs_fetch. apply rs_updates_inv; [now apply rs_unpack_no_broken|apply rs_unpack_covered]. Qed.
+
+(* ... and the reference it updates has the new value afterwards *)
+Theorem fetch_updates_ref inside loc new rs : inside loc = true -> no_broken rs ->
+  rs_view (rs_fetch inside [(loc, new)] rs) loc = RPoints new.
+Proof. intros I NB. unfold rs_fetch, rs_updates. cbn. rewrite I. cbn.
+  pose proof (rs_unpack_no_broken inside rs NB) as NB'. pose proof (rs_unpack_covered inside rs) as C.
+  set (st := rs_unpack inside rs) in *. unfold rs_cas.
+  assert (SetV : rs_view (rs_set loc new st) loc = RPoints new).
+  { unfold rs_view, rs_set. cbn [rs_loose rs_packed]. now rewrite lookup_set_same. }
+  destruct (lookup loc (rs_loose st)) as [[h|]|] eqn:L; [exact SetV|exfalso; now apply (no_broken_lookup st loc NB')|].
+  destruct (lookup loc (rs_packed st)) as [h|] eqn:P; [|exact SetV].
+  exfalso. apply lookup_none_hasb in L. rewrite C in L; [discriminate|exact I|].
+  destruct (hasb loc (rs_packed st)) eqn:X; [reflexivity|]. apply lookup_none_hasb in X. congruence. Qed.
+
+(* whatever git-bug's fetches, writes and removals and stock git's packing do, in whatever order, no reference is ever
+   left broken *)
+Theorem ref_session_no_broken steps : forall rs, no_broken rs -> no_broken (rs_run steps rs).
+Proof. unfold rs_run. induction steps as [|s t IH]; intros rs NB; cbn; [exact NB|]. apply IH.
+  destruct s as [inside ups|loc h|loc|]; cbn.
+  - now apply fetch_no_broken.
+  - now apply rs_set_no_broken.
+  - now apply rs_del_no_broken.
+  - now apply rs_pack_all_no_broken. Qed.
+
+(* why the packed references have to be made loose before EVERY fetch (and not once per opened repository): a
+   reference fetched before, packed by git pack-refs / git gc, then updated without unpacking, is left broken *)
+Definition ex_loc : list str := [s_refs; s_remotes; lit "origin"; s_bugs; lit "b1"].
+Definition ex_inside (l : list str) : bool := prefixb str_eqb [s_refs; s_remotes; lit "origin"; s_bugs] l.
+Lemma fetch_without_unpack_breaks :
+  let rs1 := rs_fetch ex_inside [(ex_loc, 1)] (mkrs [] []) in     (* first pull: unpacks, creates the tracking reference *)
+  let rs2 := rs_pack_all rs1 in                                  (* git gc *)
+  rs_view rs2 ex_loc = RPoints 1 /\
+  rs_view (rs_updates ex_inside [(ex_loc, 2)] rs2) ex_loc = RBroken /\     (* second pull, no unpacking *)
+  rs_view (rs_fetch ex_inside [(ex_loc, 2)] rs2) ex_loc = RPoints 2.       (* second pull as FetchRefs does it *)
+Proof. vm_compute. repeat split. Qed.
